@@ -34,6 +34,9 @@ pub struct VRec {
     pub count: u64,
     pub first_seed: u64,
     pub detail: String,
+    /// fault enumeration: the scripted case (operations, ghost positions) that showed it
+    #[serde(default)]
+    pub script: Option<(Vec<(u32, Op)>, Vec<(u32, u64)>)>,
 }
 
 #[derive(Serialize, Deserialize, Default, Clone, Debug)]
@@ -155,8 +158,18 @@ impl WorkerOut {
             count: 0,
             first_seed: seed,
             detail: v.detail.clone(),
+            script: None,
         });
         e.count += 1;
+    }
+
+    pub fn add_scripted_violation(&mut self, v: &Violation, seed: u64, ops: &[(u32, Op)], ghosts: &[(u32, u64)]) {
+        let key = format!("{}|{}", v.prop, v.sig);
+        let is_new = !self.violations.contains_key(&key);
+        self.add_violation(v, seed);
+        if is_new {
+            self.violations.get_mut(&key).unwrap().script = Some((ops.to_vec(), ghosts.to_vec()));
+        }
     }
 }
 
@@ -227,6 +240,9 @@ pub fn hist_worker(prop: &str, thorough: bool, base: u64, idx: u64, stride: u64,
         if out.state_hashes.len() < 200_000 {
             out.state_hashes.extend(r.state_hashes.iter().copied());
         }
+        if prop == "C11" && !faulty && r.violations.is_empty() && r.ops.len() >= 3 && (i / stride) % 3 == 0 {
+            enumerate_faults(&r, seed, thorough, &mut out);
+        }
         if out.samples.len() < 2 && r.ops.len() >= 6 {
             out.samples.push(json!({
                 "run_seed": seed,
@@ -239,6 +255,73 @@ pub fn hist_worker(prop: &str, thorough: bool, base: u64, idx: u64, stride: u64,
     }
     out.wall_s = t0.elapsed().as_secs_f64();
     out
+}
+
+/// C11: for one fault-free history, every single ghost-fault position of every call (up to 64 per call), and torn /
+/// corrupted variants of every load at the token boundaries of its buffer
+fn enumerate_faults(r: &HistResult, seed: u64, thorough: bool, out: &mut WorkerOut) {
+    let ops: Vec<(u32, Op)> = r.ops.iter().filter_map(|o| o.op.clone().map(|op| (o.label, op))).collect();
+    let mut cases = 0u64;
+    let mut fired = 0u64;
+    let mut turned_into_error = 0u64;
+    let mut load_cases = 0u64;
+    for (i, rec) in r.ops.iter().enumerate() {
+        let n = rec.try_timed.min(64);
+        for k in 0..n {
+            let mut cfg = scripted_cfg("C11", seed, thorough, ops[..=i].to_vec(), &[(rec.label, k)], false);
+            cfg.check_from = i;
+            let rr = run_history(&cfg);
+            cases += 1;
+            fired += rr.ghost_fired_at.len() as u64;
+            if rr.ops.last().map(|o| o.ret.starts_with("Err")).unwrap_or(false) && !rec.ret.starts_with("Err") {
+                turned_into_error += 1;
+            }
+            for v in &rr.violations {
+                out.add_scripted_violation(v, seed, &ops[..=i], &[(rec.label, k)]);
+            }
+        }
+        // load faults: the same load with a torn or corrupted buffer
+        if let Some(op) = &rec.op {
+            if op.k == crate::ops::K::MLoadBuffer && rec.ret.starts_with("Ok") {
+                let buf = op.buffer();
+                let mut cuts: Vec<usize> = Vec::new();
+                for (p, b) in buf.iter().enumerate() {
+                    if *b == b'<' || *b == b'>' {
+                        cuts.push(p);
+                        cuts.push(p + 1);
+                    }
+                }
+                cuts.dedup();
+                let step = (cuts.len() / if thorough { 120 } else { 40 }).max(1);
+                for (ci, cut) in cuts.iter().enumerate().filter(|(ci, _)| ci % step == 0) {
+                    let mut variant = op.clone();
+                    let mut b2 = buf.clone();
+                    if ci % 2 == 0 {
+                        b2.truncate(*cut);
+                    } else if *cut < b2.len() {
+                        b2[*cut] = [b'<', b'>', b'&', b'"', b'X', 0xff][ci % 6];
+                    }
+                    variant.text.clear();
+                    variant.hex.clear();
+                    let variant = variant.bytes(&b2);
+                    let mut v_ops = ops[..i].to_vec();
+                    v_ops.push((rec.label, variant));
+                    let mut cfg = scripted_cfg("C11", seed, thorough, v_ops.clone(), &[], false);
+                    cfg.check_from = i;
+                    let rr = run_history(&cfg);
+                    load_cases += 1;
+                    for v in &rr.violations {
+                        out.add_scripted_violation(v, seed, &v_ops, &[]);
+                    }
+                }
+            }
+        }
+    }
+    *out.extra.entry("ghost_positions_enumerated".into()).or_default() += cases;
+    *out.extra.entry("ghost_positions_fired".into()).or_default() += fired;
+    *out.extra.entry("calls_turned_into_error_by_a_ghost".into()).or_default() += turned_into_error;
+    *out.extra.entry("torn_or_corrupt_load_variants".into()).or_default() += load_cases;
+    *out.extra.entry("histories_enumerated".into()).or_default() += 1;
 }
 
 // ---------------- known findings ----------------
@@ -270,11 +353,34 @@ pub fn load_known() -> Vec<Known> {
     v
 }
 
-/// a known signature may end in `*` (prefix match) - used only where a finding's context varies in a way that is listed in the entry
+/// simple glob: `*` matches any (possibly empty) run of characters
+pub fn glob_match(pat: &str, text: &str) -> bool {
+    let parts: Vec<&str> = pat.split('*').collect();
+    if parts.len() == 1 {
+        return pat == text;
+    }
+    let mut pos = 0;
+    for (i, part) in parts.iter().enumerate() {
+        if i == 0 {
+            if !text.starts_with(part) {
+                return false;
+            }
+            pos = part.len();
+        } else if i == parts.len() - 1 {
+            return text.len() >= pos + part.len() && text[pos..].ends_with(part);
+        } else {
+            match text[pos..].find(part) {
+                Some(p) => pos += p + part.len(),
+                None => return false,
+            }
+        }
+    }
+    true
+}
+
+/// a known signature may contain `*` where the listed finding's context varies (the entry says how)
 pub fn is_known<'a>(known: &'a [Known], prop: &str, sig: &str) -> Option<&'a Known> {
-    known.iter().find(|k| {
-        k.prop == prop && (k.sig == sig || (k.sig.ends_with('*') && sig.starts_with(&k.sig[..k.sig.len() - 1])))
-    })
+    known.iter().find(|k| k.prop == prop && glob_match(&k.sig, sig))
 }
 
 // ---------------- replay files and minimisation ----------------
@@ -367,17 +473,26 @@ pub fn fmt_trace(trace: &[crate::engine::Ev]) -> Vec<String> {
 }
 
 /// produce a minimised, verified replay file for a violation found at `run_seed`
-pub fn make_hist_replay(prop: &str, sig: &str, run_seed: u64, thorough: bool) -> Option<PathBuf> {
-    // regenerate the run with its generated operations
-    let mut cfg = hist_cfg(prop, run_seed, thorough);
-    cfg.props = PropSel::only(prop);
-    if prop == "C15" {
-        cfg.props.c15 = true;
-    }
-    let r = run_history(&cfg);
-    let v = r.violations.iter().find(|v| v.prop == prop && v.sig == sig)?;
-    let ops: Vec<(u32, Op)> = r.ops.iter().filter_map(|o| o.op.clone().map(|op| (o.label, op))).collect();
-    let ghosts = r.ghost_fired_at.clone();
+pub fn make_hist_replay(prop: &str, sig: &str, run_seed: u64, thorough: bool, script: Option<&(Vec<(u32, Op)>, Vec<(u32, u64)>)>) -> Option<PathBuf> {
+    // regenerate the run with its generated operations (or take the scripted case of a fault enumeration)
+    let (ops, ghosts, v) = match script {
+        Some((ops, ghosts)) => {
+            let r = reproduces(prop, sig, run_seed, thorough, ops, ghosts)?;
+            let v = r.violations.iter().find(|v| v.prop == prop && v.sig == sig)?.clone();
+            (ops.clone(), ghosts.clone(), v)
+        }
+        None => {
+            let mut cfg = hist_cfg(prop, run_seed, thorough);
+            cfg.props = PropSel::only(prop);
+            if prop == "C15" {
+                cfg.props.c15 = true;
+            }
+            let r = run_history(&cfg);
+            let v = r.violations.iter().find(|v| v.prop == prop && v.sig == sig)?.clone();
+            let ops: Vec<(u32, Op)> = r.ops.iter().filter_map(|o| o.op.clone().map(|op| (o.label, op))).collect();
+            (ops, r.ghost_fired_at.clone(), v)
+        }
+    };
     // the scripted form must reproduce it; otherwise keep nothing (harness problem)
     let (ops, ghosts) = if reproduces(prop, sig, run_seed, thorough, &ops, &ghosts).is_some() {
         minimise_hist(prop, sig, run_seed, thorough, ops, ghosts)
@@ -609,6 +724,7 @@ pub fn check_hist(prop: &str, thorough: bool) -> i32 {
     let base = base_seed();
     println!("VERIF_SEED={base} property={prop} tier={}", if thorough { "thorough" } else { "quick" });
     let t0 = Instant::now();
+    let _ = std::fs::remove_dir_all(verif_dir().join("replays").join(prop));
     let spec = CheckSpec {
         prop,
         thorough,
@@ -635,7 +751,7 @@ pub fn check_hist(prop: &str, thorough: bool) -> i32 {
             exit = 2;
         }
     }
-    let (e2, known_seen, n_viol) = classify(prop, &total, &|v| make_hist_replay(prop, &v.sig, v.first_seed, thorough));
+    let (e2, known_seen, n_viol) = classify(prop, &total, &|v| make_hist_replay(prop, &v.sig, v.first_seed, thorough, v.script.as_ref()));
     if e2 != 0 && exit == 0 {
         exit = e2;
     }
